@@ -20,6 +20,18 @@
     the endpoint from its own `DemuxCoord` and the tag (remote.rs:143-146) and routes on it.
   * A move whose target queue is full is not enabled (the Rust thread blocks in `send`): the
     state is unchanged. Moves on empty queues are no-ops as well.
+  * A consumer may drop its `NetworkReceiver` (`leave`): flume then discards what is queued in
+    the channel and every later `send` fails. The demux thread logs and DROPS such a message
+    (demultiplexer.rs:179-181, `warn!("demux failed to send message …")`); a local producer
+    panics (`remote_sender.send(message).unwrap()`, batcher.rs:91/109 — fail-stop, the move is
+    not enabled here). Everything discarded that way is collected in the ghost `dropped`.
+    In the engine a consumer leaves only after it has received `Terminate` from every producer
+    of the endpoint (`Start::next`, start/mod.rs:233: `missing_terminate == 0`), and `Terminate` is
+    the last element a producer emits on a link (`End` ends its batchers there), so for forward
+    links nothing can be in flight at that point and `dropped` stays empty; the exception is a
+    feedback link, whose `End` does not send `Terminate` at all (end.rs:190-197, `mark_feedback`)
+    because the loop head has already left. The theorems do not rely on that argument: they are
+    stated for consumers that are alive, and as a prefix statement for all.
 -/
 import NoirVerif.Model.Batcher
 import NoirVerif.Model.Consts
@@ -96,9 +108,15 @@ structure State (ε : Type) where
   delivered : Endpoint → List (Msg ε)
   /-- ghost: elements the producer enqueued towards the endpoint, in order -/
   emitted : Coord → Endpoint → List ε
+  /-- the consumer dropped its receiver -/
+  gone : Endpoint → Bool
+  /-- ghost: messages discarded because the receiver was gone (queued at the time it left, or
+      routed to it by a demux thread afterwards), in order -/
+  dropped : Endpoint → List (Msg ε)
 
 def State.init : State ε :=
-  ⟨fun _ _ => [], fun _ => [], fun _ => [], fun _ => [], fun _ => [], fun _ _ => []⟩
+  ⟨fun _ _ => [], fun _ => [], fun _ => [], fun _ => [], fun _ => [], fun _ _ => [], fun _ => false,
+    fun _ => []⟩
 
 /-- function update -/
 def upd {κ : Type} [DecidableEq κ] {β : Type} (f : κ → β) (k : κ) (v : β) : κ → β :=
@@ -118,6 +136,8 @@ inductive Move (ε : Type) where
   | demux (k : Conn)
   /-- the consumer receives one message from its channel -/
   | recv (c : Endpoint)
+  /-- the consumer drops its receiver (it finished, or its thread died) -/
+  | leave (c : Endpoint)
 
 /-- hand the batches of one batcher call to the `NetworkSender` of `(p, c)`.
     A call sends at most one batch; if the queue is full the call blocks (= the whole move is
@@ -130,7 +150,7 @@ def sendTo (s : State ε) (p : Coord) (c : Endpoint) (batches : List (List ε)) 
 /-- is there room for one more message in the first queue of the path `p → c`? -/
 def hasRoom (s : State ε) (p : Coord) (c : Endpoint) : Bool :=
   if isRemote p c then (s.mux (connOf p c)).length < Noir.Consts.MUX_CHANNEL_CAPACITY
-  else (s.chan c).length < Noir.Consts.CHANNEL_CAPACITY
+  else (s.chan c).length < Noir.Consts.CHANNEL_CAPACITY && !s.gone c   -- gone: `send` fails, the batcher panics
 
 def step (mode : Coord → Batcher.Mode) (s : State ε) : Move ε → State ε
   | .batcher p c op =>
@@ -151,14 +171,22 @@ def step (mode : Coord → Batcher.Mode) (s : State ε) : Move ε → State ε
     | [] => s
     | (t, m) :: rest =>
       let dest := rebuild k.demux t
-      if (s.chan dest).length < Noir.Consts.CHANNEL_CAPACITY then
+      if s.gone dest then
+        -- `if let Err(e) = senders[&dest].send(message) { warn!(..) }`: the message is lost
+        { s with wire := upd s.wire k rest, dropped := upd s.dropped dest (s.dropped dest ++ [m]) }
+      else if (s.chan dest).length < Noir.Consts.CHANNEL_CAPACITY then
         { s with wire := upd s.wire k rest, chan := upd s.chan dest (s.chan dest ++ [m]) }
       else s
   | .recv c =>
+    if s.gone c then s else
     match s.chan c with
     | [] => s
     | m :: rest =>
       { s with chan := upd s.chan c rest, delivered := upd s.delivered c (s.delivered c ++ [m]) }
+  | .leave c =>
+    if s.gone c then s
+    else { s with gone := upd s.gone c true, chan := upd s.chan c [],
+                  dropped := upd s.dropped c (s.dropped c ++ s.chan c) }
 
 /-- run a schedule -/
 def run (mode : Coord → Batcher.Mode) : State ε → List (Move ε) → State ε
@@ -174,6 +202,9 @@ def proj (p : Coord) (c : Endpoint) (q : List (Msg ε)) : List ε :=
 /-- what consumer endpoint `c` has received from `p` -/
 def deliveredFrom (s : State ε) (p : Coord) (c : Endpoint) : List ε := proj p c (s.delivered c)
 
+/-- what was addressed by `p` to `c` and discarded because `c`'s receiver was gone -/
+def droppedFrom (s : State ε) (p : Coord) (c : Endpoint) : List ε := proj p c (s.dropped c)
+
 /-- elements on their way from `p` to `c`, oldest first: local channel, TCP stream, mux queue,
     batcher buffer -/
 def inflight (s : State ε) (p : Coord) (c : Endpoint) : List ε :=
@@ -185,6 +216,7 @@ def inflight (s : State ε) (p : Coord) (c : Endpoint) : List ε :=
 structure Routed (s : State ε) : Prop where
   chan : ∀ c, ∀ m ∈ s.chan c, m.dst = c
   delivered : ∀ c, ∀ m ∈ s.delivered c, m.dst = c
+  dropped : ∀ c, ∀ m ∈ s.dropped c, m.dst = c
   mux : ∀ k, ∀ m ∈ s.mux k, k = connOf m.src m.dst ∧ isRemote m.src m.dst = true
   wire : ∀ k, ∀ x ∈ s.wire k, k = connOf x.2.src x.2.dst ∧ x.1 = tagOf x.2.dst ∧
     isRemote x.2.src x.2.dst = true
